@@ -6,7 +6,7 @@
 From Coq Require Import ZArith List Bool Permutation.
 From Coq Require PrimFloat.
 From Centro Require Import Base.Sx Base.PropFloat Model.PropHeap Model.Propagate Spec.PropSpec Spec.PropCheck
-     Proofs.PropPotential Proofs.PropGrid Proofs.PropKey Proofs.PropHeapInv Proofs.PropHeapKey Proofs.PropDijkstra Proofs.PropFuel Proofs.PropLabels.
+     Proofs.PropPotential Proofs.PropGrid Proofs.PropKey Proofs.PropHeapInv Proofs.PropHeapKey Proofs.PropDijkstra Proofs.PropFuel Proofs.PropLabels Proofs.PropFloatMono.
 Import ListNotations.
 Open Scope Z_scope.
 
@@ -74,6 +74,23 @@ Theorem C03_prop_check_b64_sound :
     Spec_b64 m n image labels mask weight lo dist.
 Proof. exact prop_check_b64_sound. Qed.
 Print Assumptions C03_prop_check_b64_sound.
+
+(* that premise, proved: PrimFloat.add is tied to the IEEE-754 specification by Coq's FloatAxioms
+   (add_spec, Prim2SF_valid, SF2Prim_Prim2SF, Prim2SF_SF2Prim; through Flocq's add_equiv), rounding is
+   monotone (Flocq round_le), bit patterns of non-negative doubles are ordered as their values
+   (Bcompare_correct).  Print Assumptions lists those four axioms and the axioms of Coq's classical
+   real numbers (classic, sig_forall_dec, sig_not_dec, functional_extensionality_dep). *)
+Theorem C03_b64_add_monotone :
+  forall a b c, ok64 a -> ok64 b -> ok64 c -> a <= b -> plus64 a c <= plus64 b c.
+Proof. exact b64_add_monotone_proved. Qed.
+Print Assumptions C03_b64_add_monotone.
+
+(* hence the binary64 instance of the checker is sound with no premise left *)
+Theorem C03_prop_check_b64_sound_closed : forall m n image labels mask weight lo dist hint,
+  prop_check_b64 m n image labels mask weight lo dist hint = true ->
+  Spec_b64 m n image labels mask weight lo dist.
+Proof. exact prop_check_b64_sound_closed. Qed.
+Print Assumptions C03_prop_check_b64_sound_closed.
 
 (* the grid's neighbour lists are exactly 8-connectivity *)
 Theorem C03_grid_8_connected : forall m n v u, In v (coords m n) ->
